@@ -278,30 +278,43 @@ pub fn replay(opts: &Opts, history: &[Event]) -> Result<Vec<Violation>, String> 
     rt().block_on(async {
         let mut c = crate::simkit::cluster::Cluster::new(opts.clone(), scratch.clone()).await?;
         let trace = std::env::var("VERIF_TRACE").is_ok();
+        let idle: u64 = std::env::var("VERIF_DEBUG_IDLE_MS").ok().and_then(|v| v.parse().ok()).unwrap_or(0);
         for ev in history {
+            if idle > 0 {
+                tokio::time::sleep(std::time::Duration::from_millis(idle)).await;
+            }
             crate::simkit::cluster_ext::apply_any(&mut c, ev).await?;
             crate::simkit::cluster_ext::check_global(&mut c).await;
             if trace {
                 eprintln!("== {ev:?}");
-                for v in crate::simkit::cluster_ext::all_views(&c).await {
-                    eprintln!(
-                        "   n{} {:?} t{} vf{:?} c{} log{:?} dur{} app{} next{:?} match{:?} q{:?} ntf{:?}",
-                        v.id, v.role, v.term, v.voted_for, v.commit,
-                        v.log.iter().map(|e| (e.index, e.term)).collect::<Vec<_>>(),
-                        v.durable, v.applied, v.next_index, v.match_index, v.queues, v.notified_leader
-                    );
-                }
-                for (l, a, b, dead) in c.links() {
-                    eprintln!("   link {}->{} g{} reqs{} resps{} dead{}", l.from, l.to, l.generation, a, b, dead);
-                }
-                for cl in &c.clients {
-                    eprintln!("   client#{} n{} {:?}{:?} -> {:?}", cl.id, cl.node, cl.write, cl.read, cl.outcome);
-                }
-                eprintln!("   violations: {:?}", c.oracle.violations.iter().map(|v| &v.what).collect::<Vec<_>>());
+                eprint!("{}", dump(&c).await);
             }
         }
         Ok(c.oracle.violations.clone())
     })
+}
+
+/// Text rendering of a cluster state (trace output, determinism self-check).
+pub async fn dump(c: &crate::simkit::cluster::Cluster) -> String {
+    use std::fmt::Write;
+    let mut o = String::new();
+    for v in crate::simkit::cluster_ext::all_views(c).await {
+        let _ = writeln!(
+            o,
+            "   n{} {:?} t{} vf{:?} c{} log{:?} dur{} app{} next{:?} match{:?} q{:?} ntf{:?}",
+            v.id, v.role, v.term, v.voted_for, v.commit,
+            v.log.iter().map(|e| (e.index, e.term)).collect::<Vec<_>>(),
+            v.durable, v.applied, v.next_index, v.match_index, v.queues, v.notified_leader
+        );
+    }
+    for (l, a, b, dead) in c.links() {
+        let _ = writeln!(o, "   link {}->{} g{} reqs{} resps{} dead{}", l.from, l.to, l.generation, a, b, dead);
+    }
+    for cl in &c.clients {
+        let _ = writeln!(o, "   client#{} n{} {:?}{:?} -> {:?}", cl.id, cl.node, cl.write, cl.read, cl.outcome);
+    }
+    let _ = writeln!(o, "   violations: {:?}", c.oracle.violations.iter().map(|v| &v.what).collect::<Vec<_>>());
+    o
 }
 
 /// Greedy delta-debugging of a failing history: drop single events while the same violation
